@@ -457,6 +457,23 @@ def alternatives(t, limit=64, into_comps=True):
     return out
 
 
+def resolve_under(t, oracle, guards=()):
+    """t with the conditional expressions resolved that the scenario decides: `oracle(atom, None)` (or a guard already on the path) answers the condition"""
+    known = dict(guards)
+    for variant, gs in alternatives(t):
+        ok = True
+        for a, pol in gs:
+            r = known.get(a)
+            if r is None:
+                r = oracle(a, None)
+            if r is None or r != pol:
+                ok = False
+                break
+        if ok:
+            return variant
+    return t
+
+
 def expr_term(ctx, fi, node, env=None):
     """term of a single expression node of `fi`, its free names left as ('name', id) leaves (or taken from `env`)"""
     from .symeval import Evaluator, State
